@@ -24,10 +24,22 @@ Two kinds of case (see harness/props/c04.py for the generators):
   have not ended when the schedule is used up then run to their end, in order.  Reported:
   per thread [outcome, size seen by the callback], then the usual observation.
 
+* round 8: a history starts with the CREATION of the image: ``case["route"]`` in
+  ``ctor`` (the class constructor on a PIL image; the default), ``file`` (``cls.from_file`` on a
+  temporary PNG file), ``url`` (``cls.from_url``; the name ``requests`` of the library module is
+  bound to a stub whose ``get`` answers with the bytes of the generated PNG: no network), and
+  ``case["args"]``: the keyword arguments ``width`` / ``height`` that are PASSED (a key that is
+  absent is not passed; a value may be ``None``).  Reported besides the trace: ``made`` (an
+  image came into being) and ``init`` (outcome of the creation, the reads right after it).
+
 Floats cross the boundary as ``float.hex()`` strings only.  Results are integers."""
 import implenv
 from implenv import tests
+import io
 import os
+import shutil
+import tempfile
+import types
 
 import term_image
 import parksched
@@ -54,6 +66,49 @@ def _get_terminal_size():
 utils.get_terminal_size = _get_terminal_size
 common.get_terminal_size = _get_terminal_size
 assert common.get_cell_size is tests.get_cell_size and term_image.get_cell_size is tests.get_cell_size
+
+
+# ---- construction routes (round 8)
+URL_CONTENT = {}
+
+
+class _Response:
+    status_code = 200
+
+    def __init__(self, content):
+        self.content = content
+
+
+def _fake_get(url, **kw):
+    return _Response(URL_CONTENT[url])
+
+
+# the library module's own name `requests` (common.py: `import requests`): in THIS process only
+common.requests = types.SimpleNamespace(get=_fake_get)
+
+
+def create(cls, route, kwargs, ow, oh):
+    """-> (image, scratch directory or None)"""
+    if route == "ctor":
+        return cls(Image.new("L", (ow, oh)), **kwargs), None
+    buf = io.BytesIO()
+    Image.new("L", (ow, oh)).save(buf, "PNG")
+    if route == "file":
+        tmp = tempfile.mkdtemp(prefix="c04route-")
+        try:
+            path = os.path.join(tmp, "source.png")
+            with open(path, "wb") as f:
+                f.write(buf.getvalue())
+            return cls.from_file(path, **kwargs), tmp
+        except BaseException:
+            shutil.rmtree(tmp, ignore_errors=True)
+            raise
+    url = "http://c04.invalid/source.png"
+    URL_CONTENT[url] = buf.getvalue()
+    try:
+        return cls.from_url(url, **kwargs), None
+    finally:
+        del URL_CONTENT[url]
 
 
 def set_env(term, cell):
@@ -175,11 +230,28 @@ def run_h(case):
     term_image._cell_ratio = 0.5
     AutoCellRatio.is_supported = None
     ow, oh = case["ow"], case["oh"]
-    if ow * oh <= 65536:
-        img = cls(Image.new("L", (ow, oh)))
-    else:
-        img = cls(Image.new("L", (1, 1)))
-        img._original_size = (ow, oh)
+    route = case.get("route", "ctor")
+    kwargs = {k: dim(v) for k, v in (case.get("args") or {}).items()}
+    scratch = None
+    try:
+        if ow * oh <= 65536 or route != "ctor" or kwargs:
+            img, scratch = create(cls, route, kwargs, ow, oh)
+        else:
+            img = cls(Image.new("L", (1, 1)))
+            img._original_size = (ow, oh)
+    except Exception as e:
+        return {"made": False, "init": {"c": code_of(e), "size": [0, 0, 0], "rs": [0, 0], "rw": 0, "rh": 0, "during": None},
+                "trace": []}
+    try:
+        return run_ops(case, img)
+    finally:
+        img.close()  # from_url: removes the library's temporary file
+        if scratch:
+            shutil.rmtree(scratch, ignore_errors=True)
+
+
+def run_ops(case, img):
+    init = observe(img, 0, None)
     seen = []
 
     def make_recorder(raises):
@@ -238,7 +310,7 @@ def run_h(case):
         trace.append(observe(img, outcome, during))
         if thr is not None:
             trace[-1]["thr"] = thr
-    return {"trace": trace}
+    return {"made": True, "init": init, "trace": trace}
 
 
 if __name__ == "__main__":
